@@ -31,7 +31,21 @@ def _ints(width, signed):
     else:
         lo, hi = 0, (1 << (8 * width)) - 1
     return st.one_of(st.integers(lo, hi), st.sampled_from([lo, hi, 0, 1, hi // 2]),
-                     st.integers(max(lo, -3), min(hi, 130)))
+                     st.integers(max(lo, -3), min(hi, 130)), _by_magnitude(lo, hi))
+
+
+def _by_magnitude(lo, hi):
+    """uniform in the bit length first, then in the value: every order of magnitude of a
+    wide field is visited, not only its two ends"""
+    def draw(bits, negative, frac):
+        top = (1 << bits) - 1
+        bottom = (1 << (bits - 1)) if bits else 0
+        v = bottom + (top - bottom) * frac // 1000000
+        v = -v if negative else v
+        return min(hi, max(lo, v))
+    return st.builds(draw, st.integers(0, max(hi, -lo).bit_length()),
+                     st.booleans() if lo < 0 else st.just(False),
+                     st.integers(0, 1000000))
 
 
 def timestamps():
@@ -45,6 +59,10 @@ def timestamps():
         st.integers(2**32, MAXDT * 1000),
         st.integers(MAXDT * 1000 - 5000, MAXDT * 1000 + 5000),
         st.integers(MAXDT * 1000, 2**64 - 1),
+        _by_magnitude(0, 2**64 - 1),
+        # every decimal order of magnitude (a unit guess - s / ms / us / ns - changes there)
+        st.builds(lambda e, m, d: min(2**64 - 1, (10 ** e) * m // 1000 + d),
+                  st.integers(3, 19), st.integers(1000, 9999), st.integers(-1, 1)),
     )
 
 
